@@ -473,3 +473,68 @@ def inclusive_stop_direction(ctx: Ctx) -> None:
                 ctx.bad(R, f, s, f'`{norm(s)[:50]}` moves the stop position forward whatever the sign of the step: with a descending step the slice stops two labels '
                         'before its stop label instead of including it', key=key)
     ctx.require(n >= 2, 'places that make a label-slice stop inclusive')
+
+
+def slice_bounds_offset(ctx: Ctx) -> None:
+    R = 'I.slice-bounds-offset'
+    ctx.rule(R, 'LocMap.map_slice_args serves an index that sits at an offset inside a hierarchy: projected on "the offset applies" and "the field is a bound" '
+             '(start / stop, not the step), every position it yields has had the offset added on every path — exact labels, same-unit datetimes and '
+             'coarser-unit datetimes alike; a branch that yields a position local to the sub-index selects rows of the first outer group', floor=2)
+    prog = ctx.prog
+    f = prog.func('index.LocMap.map_slice_args')
+    fld = [lp.target.id for lp in walk_local(f.node) if isinstance(lp, ast.For) and norm(lp.iter) == 'SLICE_ATTRS' and isinstance(lp.target, ast.Name)]
+    posn = roles.assigned_from(f.node, lambda v: isinstance(v, ast.Call) and isinstance(v.func, ast.Name) and f.params and v.func.id == f.params[0])
+    # the flag "offset applies": a local assigned from a test of the offset parameter against None
+    offp = [p for p in f.params if p == 'offset'] or f.params[-1:]
+    flag = roles.assigned_from(f.node, lambda v: any(isinstance(x, ast.Name) and x.id == offp[0] for x in ast.walk(v)) and any(isinstance(x, ast.Constant) and x.value is None for x in ast.walk(v)))
+    ctx.require(bool(fld) and posn is not None and flag is not None, 'map_slice_args: field loop, position local, offset flag')
+    fnode = roles.canonical(f.node, {'field': fld[0], 'pos': posn, 'offset_apply': flag, 'offset': offp[0]})
+
+    class C(flow.Client):
+        def __init__(self):
+            self.yields: tp.List[tp.Tuple[ast.AST, bool]] = []
+
+        def join(self, a, b):
+            return a & b
+
+        def refine(self, atom, st, truth):
+            t = norm(atom)
+            if t == 'offset_apply' and not truth:
+                return None         # scenario: the offset applies
+            proj = {'field == SLICE_STEP_ATTR': False, 'field != SLICE_STEP_ATTR': True}
+            if t in proj and proj[t] != truth:
+                return None         # scenario: the field is a bound
+            return st
+
+        def on_stmt(self, s, st):
+            if isinstance(s, ast.AugAssign) and norm(s.target) == 'pos' and isinstance(s.op, ast.Add):
+                if norm(s.value) == 'offset':
+                    return st | {'off'}
+                return st
+            if isinstance(s, (ast.Assign, ast.AnnAssign)):
+                tg = s.targets if isinstance(s, ast.Assign) else [s.target]
+                if any(norm(t) == 'pos' for t in tg) and s.value is not None:
+                    v = s.value
+                    keeps = any(isinstance(x, ast.Name) and x.id == 'pos' for x in ast.walk(v))         # pos = pos + 1 and the like
+                    adds = any(isinstance(x, ast.BinOp) and isinstance(x.op, ast.Add) and 'offset' in (norm(x.left), norm(x.right)) for x in ast.walk(v))
+                    if adds:
+                        return st | {'off'}
+                    return st if keeps else st - {'off'}
+            return st
+
+        def on_yield(self, node, st):
+            if isinstance(node, ast.Yield) and node.value is not None and norm(node.value) == 'pos':
+                self.yields.append((node, 'off' in st))
+            return st
+    c = C()
+    flow.Engine(c).run(fnode.body, frozenset())
+    ctx.require(len(c.yields) >= 2, 'map_slice_args yields positions for the bounds')
+    seen = set()
+    for node, ok in c.yields:
+        k = (node.lineno, ok)
+        if k in seen:
+            continue
+        seen.add(k)
+        key = f'yield@{norm(_enclosing_branch(fnode, node))[:50]}'
+        (ctx.ok if ok else ctx.bad)(R, f, node, 'the offset has been added on every path to this yield' if ok else
+                                    'on some path a start / stop position is yielded without the offset although it applies: the slice addresses the first outer group', key=key)
